@@ -106,6 +106,12 @@ class AnsiSetting:
         if not self.valid:
             return False
 
+        # Only decimal digits separated by ';' are read as parameters by a terminal; int() alone would also accept
+        # surrounding whitespace, signs, underscores and non-ASCII digits
+        for c in self._str:
+            if c != ansi_sep and (c < '0' or c > '9'):
+                return False
+
         codes = self.to_list()
 
         # At least 1 code must be found, and first value must not be reset
